@@ -124,6 +124,8 @@ class Canon:
                 if c and self.inlinable(c) is not None:
                     self.run_fn(self.fns[c], stack + (p,))
             self.flatten_blocks(body)
+            self.option_searches(body, f)
+            self.flatten_blocks(body)
             # a closure whose whole body is a helper call: give it a block so the helper's statements can be spliced
             for n in list(_walk(body)):
                 if n.get("k") == "Closure" and isinstance(n.get("body"), dict):
@@ -520,6 +522,177 @@ class Canon:
             n["r"] = rhs
             n["canon"] = "x = x op e"
             self.stats["assign_forms"] += 1
+
+    # ------------------------------------------------------------------ P11
+    SOME = "std::prelude::v1::Some"
+    NONE = "std::prelude::v1::None"
+
+    def _some(self, e, sp, ty=None):
+        return {"k": "Call", "f": {"k": "Def", "dk": "Ctor(Variant, Fn)", "fn": self.SOME, "fn_local": False, "id": self._id(), "ty": "fn", "sp": list(sp)},
+                "args": [e], "id": self._id(), "ty": ty or "std::option::Option<T>", "sp": list(sp)}
+
+    def _none(self, sp, ty=None):
+        return {"k": "Def", "dk": "Ctor(Variant, Const)", "fn": self.NONE, "fn_local": False, "id": self._id(), "ty": ty or "std::option::Option<T>", "sp": list(sp)}
+
+    def _search_helper(self, path):
+        """A private helper of the form `..; for .. { if .. { return Some(e); } } None`: every `return` carries Some(..),
+        the value of the body is None (so a caller that matches on the result can absorb it)."""
+        f = self.fns.get(path)
+        if f is None or f.get("kind") not in ("Fn", "AssocFn") or self.known is None or path in self.known:
+            return None
+        if f.get("pub") or f.get("impl_trait") or any(p.get("k") != "Bind" or p.get("byref") for p in f.get("params", [])):
+            return None
+        body = f.get("body")
+        if not isinstance(body, dict) or body.get("k") != "Block" or body.get("expr") is None:
+            return None
+        t = _strip(body["expr"])
+        if not (t.get("k") == "Def" and str(t.get("fn", "")).endswith("::None")):
+            return None
+        rets = [n for n in _walk(body) if n.get("k") == "Ret"]
+        if not rets or any(n.get("k") == "Try" or _callee(n) == path for n in _walk(body)):
+            return None
+        for r in rets:
+            e = _strip(r.get("e") or {})
+            if not (e.get("k") == "Call" and e["f"].get("k") == "Def" and str(e["f"].get("fn", "")).endswith("::Some") and len(e.get("args", [])) == 1):
+                return None
+        return f
+
+    def option_searches(self, body, f_owner):
+        """`match h(..) { Some(p) => A, None => B }` in tail position and `if let Some(p) = h(..) { A; return .. }` as a statement,
+        h a search helper (see _search_helper), and `R.find(|&k| T).map(|k| E)` in tail position:
+            -> h's statements with every `return Some(e)` turned into `{ let p = e; return A }` (resp. `{ let p = e; A }`),
+               followed by B.  The caller then contains the scan loop itself, as before the helper was extracted."""
+        if body.get("k") != "Block":
+            return
+        changed = True
+        guard = 0
+        while changed and guard < 4:
+            changed = False
+            guard += 1
+            for blk in [n for n in _walk(body) if n.get("k") == "Block"]:
+                is_fn_tail = blk is body
+                # --- tail: match h(..) { Some(p) => A, None => B }
+                tail = blk.get("expr")
+                t = _strip(tail) if tail is not None else None
+                if is_fn_tail and t is not None and t.get("k") == "Match" and len(t.get("arms", [])) == 2:
+                    call = _strip(t["scrut"])
+                    hp = _callee(call)
+                    h = self._search_helper(hp) if hp else None
+                    some_arm = [a for a in t["arms"] if a["pat"].get("k") in ("TupleStruct", "Struct") and str(a["pat"].get("path", "")).endswith("::Some")]
+                    none_arm = [a for a in t["arms"] if a not in some_arm]
+                    if h is not None and len(some_arm) == 1 and len(none_arm) == 1 and not any(a.get("guard") for a in t["arms"]):
+                        pat = some_arm[0]["pat"]
+                        inner = (pat.get("ps") or [x["pat"] for x in pat.get("fields", [])])
+                        if len(inner) == 1 and inner[0].get("k") in ("Bind", "Wild"):
+                            inst = self._instance(h, call)
+                            if inst is not None:
+                                pre, st, htail = inst
+                                self._absorb_returns(st, inner[0], some_arm[0]["body"], as_return=True)
+                                blk["stmts"] = list(blk.get("stmts", [])) + pre + st
+                                blk["expr"] = none_arm[0]["body"]
+                                changed = True
+                                continue
+                # --- tail: R.find(|&k| T).map(|k| E)
+                if is_fn_tail and t is not None and t.get("k") == "MethodCall" and t.get("name") == "map" and str(t.get("fn", "")).startswith("std::option::Option") and len(t.get("args", [])) == 1:
+                    fnd = _strip(t["recv"])
+                    cl2 = _strip(t["args"][0])
+                    if fnd.get("k") == "MethodCall" and fnd.get("name") == "find" and fnd.get("fn") == "std::iter::Iterator::find" and len(fnd.get("args", [])) == 1 and \
+                            _strip(fnd["recv"]).get("k") == "Range" and cl2.get("k") == "Closure" and len(cl2.get("params", [])) == 1 and cl2["params"][0].get("k") == "Bind":
+                        cl1 = _strip(fnd["args"][0])
+                        p1 = cl1["params"][0] if cl1.get("k") == "Closure" and len(cl1.get("params", [])) == 1 else None
+                        if p1 is not None and p1.get("k") == "Ref":
+                            p1 = p1["p"]
+                        if p1 is not None and p1.get("k") == "Bind" and not any(x.get("k") in ("Ret", "Try") for x in list(_walk(cl1["body"])) + list(_walk(cl2["body"]))):
+                            sp = t.get("sp") or [0, 0, 0, 0]
+                            k1 = p1["v"]
+                            # E with its parameter renamed to the search variable
+                            E = cl2["body"]
+                            for u in [x for x in _walk(E) if x.get("k") == "Local" and x.get("v") == cl2["params"][0]["v"]]:
+                                u["v"] = k1
+                                u["name"] = p1.get("name")
+                            T = cl1["body"]
+                            # inside the find closure the parameter is `&k` / `*k`: uses are plain k after the Ref pattern
+                            ret = {"k": "Ret", "e": self._some(E, E.get("sp") or sp, t.get("ty")), "id": self._id(), "ty": "!", "sp": list(E.get("sp") or sp)}
+                            ifn = {"k": "If", "cond": T, "then": {"k": "Block", "stmts": [{"k": "Semi", "e": ret, "sp": list(ret["sp"])}], "id": self._id(), "ty": "!", "sp": list(ret["sp"])},
+                                   "id": self._id(), "ty": "()", "sp": list(T.get("sp") or sp)}
+                            loop = {"k": "For", "pat": dict(p1), "iter": _strip(fnd["recv"]),
+                                    "body": {"k": "Block", "stmts": [{"k": "Expr", "e": ifn, "sp": list(ifn["sp"])}], "id": self._id(), "ty": "()", "sp": list(ifn["sp"])},
+                                    "id": self._id(), "ty": "()", "sp": list(sp), "canon": "find-map"}
+                            loop["iter"].pop("adj", None)
+                            blk["stmts"] = list(blk.get("stmts", [])) + [{"k": "Expr", "e": loop, "sp": list(sp)}]
+                            blk["expr"] = self._none([sp[2], sp[3], sp[2], sp[3]], t.get("ty"))
+                            changed = True
+                            continue
+                # --- statement: if let Some(p) = h(..) { A (diverging) } [else { B }]
+                out = []
+                ch = False
+                for st in blk.get("stmts", []):
+                    e = _strip(st.get("e") or {}) if st.get("k") in ("Semi", "Expr") else {}
+                    c = e.get("cond") if e.get("k") == "If" else None
+                    done = False
+                    if isinstance(c, dict) and c.get("k") == "LetCond":
+                        pat = c["pat"]
+                        call = _strip(c["init"])
+                        hp = _callee(call)
+                        h = self._search_helper(hp) if hp else None
+                        inner = (pat.get("ps") or [x["pat"] for x in pat.get("fields", [])]) if pat.get("k") in ("TupleStruct", "Struct") and str(pat.get("path", "")).endswith("::Some") else []
+                        A = e["then"]
+                        if h is not None and len(inner) == 1 and inner[0].get("k") in ("Bind", "Wild") and self._leaves(A):
+                            inst = self._instance(h, call)
+                            if inst is not None:
+                                pre, hst, htail = inst
+                                self._absorb_returns(hst, inner[0], A, as_return=False)
+                                out.extend(pre)
+                                out.extend(hst)
+                                if e.get("else") is not None:
+                                    out.append({"k": "Semi", "e": e["else"], "sp": e["else"].get("sp")})
+                                done = ch = True
+                    if not done:
+                        out.append(st)
+                if ch:
+                    blk["stmts"] = out
+                    changed = True
+        if guard > 1:
+            self.stats["option_searches"] = self.stats.get("option_searches", 0) + 1
+
+    @staticmethod
+    def _leaves(blk):
+        """the block ends in `return` (it never falls through)"""
+        if blk.get("k") != "Block":
+            return blk.get("k") == "Ret"
+        last = blk.get("expr")
+        if last is None and blk.get("stmts"):
+            last = blk["stmts"][-1].get("e")
+        return isinstance(last, dict) and _strip(last).get("k") == "Ret"
+
+    def _absorb_returns(self, stmts, pbind, A, as_return):
+        """in the helper's statements: `return Some(e)`  ->  `{ let p = e; return A }` / `{ let p = e; A }`"""
+        holder = {"k": "Block", "stmts": stmts}
+        for n in list(_walk(holder)):
+            if n.get("k") != "Ret":
+                continue
+            e = _strip(n["e"])["args"][0]
+            sp = n.get("sp") or e.get("sp") or [0, 0, 0, 0]
+            a = copy.deepcopy(A)
+            base = self.fresh
+            self.fresh += 100000
+            for x in _walk(a):
+                if isinstance(x.get("id"), int):
+                    x["id"] += base
+                if x.get("sp"):
+                    x["sp"] = [sp[0], sp[1] + 0.002, sp[2], sp[3] + 0.002]
+            st2 = []
+            if pbind.get("k") == "Bind":
+                st2.append({"k": "Let", "pat": dict(pbind), "init": e, "sp": [sp[0], sp[1] + 0.001, sp[2], sp[3] + 0.001]})
+            if as_return:
+                val = a
+                if not self._leaves(a):
+                    val = {"k": "Ret", "e": a, "id": self._id(), "ty": "!", "sp": [sp[0], sp[1] + 0.002, sp[2], sp[3] + 0.002]}
+                st2.append({"k": "Semi", "e": val, "sp": list(val.get("sp") or sp)})
+            else:
+                st2.append({"k": "Semi", "e": a, "sp": [sp[0], sp[1] + 0.002, sp[2], sp[3] + 0.002]})
+            n.clear()
+            n.update({"k": "Block", "stmts": st2, "id": self._id(), "ty": "!", "sp": list(sp)})
 
     # ------------------------------------------------------------------ P10
     def flatten_blocks(self, body):
